@@ -12,6 +12,8 @@ R3.4 polygon cache key ⊇ attributes the polygon evaluation reads; cache
      settings.
 R3.5 event limit: applied inside the enabled branch on the selected events
      with the index mask written back.
+R3.7 universe: Filter.features = dataset.features_scalar, selected by the
+     definitions' scalar-feature predicate (tabulated + ml_score_???).
 R3.6 reset: Filter.reset clears all memo state; reset_filter restores every
      default of the filtering section and keeps the hierarchy parent.
 """
@@ -878,6 +880,94 @@ def r36(ctx, repo):
                    key=f"{CONF}::_init_default_filter_values::neutral {k}")
 
 
+def r37(ctx, repo):
+    """The universe of features the filter evaluates (`Filter.features`) is
+    the dataset's scalar features as decided by the definitions' predicate
+    (which also admits the pattern-defined ml_score_??? features) – a range
+    on a feature outside that universe is skipped silently."""
+    ini = repo.func(FILT, "Filter._init_rtdc_ds")
+    src = [n for n in walk(ini) if isinstance(n, ast.Assign)
+           and any(is_self_attr(t, "features") for t in n.targets)]
+    if len(src) != 1:
+        raise AnalysisError("Filter._init_rtdc_ds: binding of self.features "
+                            "lost")
+    v = src[0].value
+    ok = isinstance(v, ast.Attribute) and v.attr == "features_scalar"
+    ctx.ob("R3.7", ok, "the filter evaluates the dataset's scalar features"
+           if ok else f"the filter's feature universe is `{short(v, 40)}`, "
+           f"not the dataset's scalar features", node=src[0],
+           label="filter universe = features_scalar")
+    fs = canon(repo, CORE, repo.func(CORE, "RTDCBase.features_scalar"))
+    # the selection: comprehension or loop over self.features
+    conds = None
+    for n in ast.walk(fs):
+        if isinstance(n, (ast.ListComp, ast.GeneratorExp, ast.SetComp)) \
+                and len(n.generators) == 1 and is_self_attr(
+                    n.generators[0].iter, "features") and isinstance(
+                    n.generators[0].target, ast.Name):
+            g = n.generators[0]
+            conds = (g.target.id, list(g.ifs), n)
+        elif isinstance(n, ast.For) and is_self_attr(n.iter, "features") \
+                and isinstance(n.target, ast.Name) and len(n.body) == 1 \
+                and isinstance(n.body[0], ast.If) and not n.body[0].orelse:
+            conds = (n.target.id, [n.body[0].test], n)
+    if conds is None:
+        raise AnalysisError("RTDCBase.features_scalar: selection over "
+                            "self.features not recognised")
+    var, tests, node = conds
+
+    def is_predicate(t):
+        if not isinstance(t, ast.Call) or not t.args or txt(
+                t.args[0]) != var:
+            return False
+        name = (call_name(t) or "").split(".")[-1]
+        if name == "scalar_feature_exists":
+            return len(t.args) == 1 and not t.keywords
+        if name == "feature_exists":
+            so = kwarg(t, "scalar_only", 1)
+            return isinstance(so, ast.Constant) and so.value is True
+        return False
+    ok = len(tests) == 1 and is_predicate(tests[0])
+    if not ok:
+        # decidable deviations: a bare table membership (the tables do not
+        # hold the pattern-defined features) or no selection at all;
+        # anything else may be an equivalent re-implementation
+        table_only = len(tests) == 1 and isinstance(
+            tests[0], ast.Compare) and len(tests[0].ops) == 1 and isinstance(
+            tests[0].ops[0], ast.In) and txt(tests[0].left) == var and txt(
+            tests[0].comparators[0]).split(".")[-1] in (
+            "scalar_feature_names", "feature_names")
+        if tests and not table_only:
+            raise AnalysisError(
+                "RTDCBase.features_scalar: selection predicate "
+                f"`{short(tests[0], 50)}` not understood")
+    ctx.ob("R3.7", ok, "scalar-ness is decided by the definitions' "
+           "predicate (covers pattern-defined features)" if ok else
+           f"features_scalar selects with `"
+           f"{' and '.join(short(t, 50) for t in tests)}` instead of the "
+           f"definitions' scalar-feature predicate: pattern-defined scalar "
+           f"features (ml_score_???) drop out of every filter", node=node,
+           label="scalar predicate")
+    # the predicate itself admits the table and the pattern
+    fe = repo.func("dclab/definitions/feat_logic.py", "feature_exists")
+    t = txt(fe)
+    ok = "scalar_feature_names" in t and "ml_score_" in t
+    ctx.ob("R3.7", ok, "the predicate admits tabulated and pattern-defined "
+           "scalar features" if ok else "the scalar-feature predicate lost a "
+           "case", node=fe, label="predicate cases", nontrivial=False)
+    sf = repo.func("dclab/definitions/feat_logic.py", "scalar_feature_exists")
+    calls = [c for c in walk(sf) if isinstance(c, ast.Call)
+             and (call_name(c) or "").split(".")[-1] == "feature_exists"]
+    ok = len(calls) == 1 and isinstance(
+        kwarg(calls[0], "scalar_only", 1), ast.Constant) and kwarg(
+        calls[0], "scalar_only", 1).value is True and any(
+        isinstance(r, ast.Return) and r.value is calls[0] for r in walk(sf))
+    ctx.ob("R3.7", ok, "scalar_feature_exists = feature_exists(.., "
+           "scalar_only=True)" if ok else "scalar_feature_exists no longer "
+           "wraps feature_exists(scalar_only=True)", node=sf,
+           label="predicate wrapper", nontrivial=False)
+
+
 def run(ctx):
     repo = ctx.repo
     ctx.rule("R3.1", "settings diff covers removed keys; snapshot is a copy "
@@ -894,6 +984,8 @@ def run(ctx):
              "write-back", minimum=5)
     ctx.rule("R3.6", "reset clears all memo state and restores neutral "
              "defaults, hierarchy parent kept", minimum=15)
+    ctx.rule("R3.7", "filter universe = scalar features by the definitions' "
+             "predicate (tabulated + pattern-defined)", minimum=2)
     upd = canon(repo, FILT, repo.func(FILT, "Filter.update"),
                 keep=("_get_rw_array", "_init_rtdc_ds"))
     r31(ctx, repo, upd)
@@ -902,9 +994,16 @@ def run(ctx):
     r34(ctx, repo, upd)
     r35(ctx, repo, upd)
     r36(ctx, repo)
+    r37(ctx, repo)
 
 
 MUTANTS = [
+    ("scalar features by table membership (seeded C03_7)", CORE,
+     ("if dfn.scalar_feature_exists(ft)]", "if ft in dfn.scalar_feature_names]"),
+     "R3.7"),
+    ("filter universe is all features", FILT,
+     ("self.features = rtdc_ds.features_scalar",
+      "self.features = rtdc_ds.features"), "R3.7"),
     ("invalid filter cached on the setting (seeded C03_5)", FILT,
      ("        arr_invalid[:] = True\n"
       "        if cfg_cur[\"remove invalid events\"]:\n"
